@@ -29,26 +29,32 @@ K_COND = 1000.0     # conditioning constant of the package's q0, q0' (see ASSUMP
 TOL = 1e-12
 ASSUMPTIONS = [
     'quantifier of the property: a in [1e5,1e8] m, f = 0 or f in [1e-6,0.2], m = w^2 a^2 b/GM <= 0.05, heights 0..0.5 % of a; '
-    'the bodies of constants.py are taken as shipped (Jupiter m=0.083, Saturn m=0.14 are outside the lattice range but every '
-    'law checked on them is m-independent)',
-    'tolerance 1e-12 relative for every identity that is well conditioned (observed <= 1e-15 .. 5e-16)',
-    'second_eccentricity_squared / linear_eccentricity are computed by the package as a^2-b^2, which cancels for small f: '
-    'relative error <= eps/f by construction (observed <= 0.6 eps/f); tolerance 1e-12 + 100 eps/f (2.2e-8 at f=1e-6, still 1e-3 of a '
-    'swapped a<->b which changes e\'^2 by 2f relative ... for f >= 1e-5)',
-    'package ge, gp, J2 against the reference: the package evaluates q0 = 1/2[(1+3/e\'^2)atan e\' - 3/e\'] and q0\' in closed form; '
-    'both cancel as e\' -> 0 (q0 ~ 2/15 e\'^3 from terms ~ 3/e\'), relative error of e\' q0\'/q0 ~ 5.6 eps/f^2, and the ratio enters '
-    'ge, gp, J2 multiplied by m. Tolerance = 1e-12 + K m eps/f^2 relative with K = 2000 (>= 100 x the worst observed '
-    'normalised error, see worst_observed[*.cond_units]); at f = 1e-6, m = 3.4e-3 this is 1.5e-3 relative of the m-term, i.e. the '
-    'bound stays below the O(m) effect of any formula error for f >= 3e-6 and 3 orders below it for f >= 1e-4',
-    'f = 0 is judged against the limit of the general formula: ge -> GM/a^2 (1-3m/2), gp -> GM/a^2 (1+m), J2 -> -m/3, '
-    'U0 -> GM/a + w^2 a^2/3 (reference series are finite at e\' = 0); tolerance 1e-12',
-    'continuity: |(X(f)-X(f\'))_package - (X(f)-X(f\'))_reference| <= sum of the two agreement tolerances, X in {ge, gp, g(45), J2, U0}',
+    'the bodies of constants.py are taken as shipped (Jupiter m=0.083, Saturn m=0.14 lie outside the lattice range of m, but every '
+    'law checked on them holds for any m)',
+    'tolerance 1e-12 relative for every well-conditioned identity (b, e^2, aspect ratio, radii, m, Pizzetti, Somigliana, symmetry, '
+    'equator/pole values, height factor, U0); worst observed over the thorough tier <= 1.2e-15',
+    "second_eccentricity_squared / linear_eccentricity: the package forms a^2-b^2, which cancels for small f (relative error eps/f "
+    "by construction; observed <= 1.03 eps/f); tolerance 1e-12 + 200 eps/f (4.4e-8 at f=1e-6; a swapped a<->b changes e'^2 by 2f relative)",
+    "package ge, gp, g(lat,h), J2 against the reference: the package evaluates q0 = 1/2[(1+3/e'^2)atan e' - 3/e'] and q0' in closed "
+    "form; both cancel as e' -> 0 (q0 ~ 2/15 e'^3 out of terms ~ 3/e'), so e' q0'/q0 carries a relative error ~ c eps/f^2 and enters "
+    "ge, gp, g multiplied by m (J2: by m/3, absolute). Tolerance = 1e-12 + K m eps/f^2 relative, K = 1000; worst observed "
+    "normalised error over the thorough tier = 5.2 (ge, gp, g) / 4.4 (J2), i.e. margin 190x; for f >= 3e-3 the observed error is "
+    "<= 3.3e-12 (ge, gp) and 2.3e-11 (J2, relative to max(|J2|, m)). The bound is 2.2e-13 m/f^2: it stays below the O(m f) .. O(m) "
+    "effect of any formula error for f >= 1e-5 and is 3 orders below it for f >= 1e-3",
+    "f = 0 is judged against the limit of the general formula (e' q0'/q0 -> 3): ge -> GM/a^2 (1-3m/2), gp -> GM/a^2 (1+m), "
+    "J2 -> -m/3, U0 -> GM/a + w^2 a^2/3 (the reference series are finite at e' = 0); tolerance 1e-12",
+    "continuity: |(X(f)-X(f'))_package - (X(f)-X(f'))_reference| <= sum of the two agreement tolerances for neighbouring lattice "
+    "flattenings (f = 0 against the smallest positive f included), X in {ge, gp, g(45 deg), J2, U0}",
     'rotating sphere (f <= 1e-4): |ge - GM/a^2 (1-m)| and |gp - GM/a^2| <= (2m + 3f) GM/a^2',
-    'height: g(h)/g(0) against the second-order factor 1 - 2h/a (1+f+m-2f sin^2) + 3h^2/a^2 (1e-12), strictly decreasing over the height grid',
-    'international_gravity: symmetry, positivity, documented domain |lat| <= 90, and closeness to Somigliana\'s closed formula of the '
-    'epoch\'s own ellipsoid (GRS67, GRS80, WGS84) within 1e-5 m/s^2 (the published accuracy of the two-term series is 1e-6 m/s^2; '
-    'observed 7e-7 / 6e-7 for 1967 / 1984); epochs 1930/1948 have no GM-based ellipsoid and are checked for symmetry/sign only',
-    'authalic_sphere_radius and mean_normal_gravity are truncated series (not identities) and are out of scope; the WGS inertial moments are C16-external',
+    'height: g(h)/g(0) against the second-order factor 1 - 2h/a (1+f+m-2f sin^2) + 3h^2/a^2 (1e-12) and strictly decreasing over the '
+    'height grid; the accuracy of that truncated expansion itself is not part of the property',
+    "international_gravity: symmetry, positivity, documented domain |lat| <= 90, and closeness to Somigliana's closed formula on the "
+    "epoch's own ellipsoid (GRS67, GRS80, WGS84) within 1e-5 m/s^2 (published accuracy of the two-term series 1e-6 m/s^2; observed "
+    "6.8e-7 / 6.4e-7 for 1967 / 1984, and 6.5e-7 for 1980 once its equatorial constant is 9.7803267715); epochs 1930/1948 predate "
+    "GM-defined ellipsoids and are checked for symmetry/sign/domain only. welmec_gravity: symmetry, sign, decreasing in h, within "
+    "5e-5 m/s^2 of WGS84 Somigliana at h = 0 (observed 7.8e-6)",
+    'authalic_sphere_radius and mean_normal_gravity are truncated series (not identities) and out of scope, as are the WGS inertial moments',
+    'seed: quick explores the DESIGN lattice itself (jitter entry 0) plus the off-grid copy VERIF_SEED mod 8; thorough explores all 8',
 ]
 REQUIRED_CLASSES = ['f=0', 'f:tiny(<=1e-5)', 'f:small(<=1e-3)', 'f:earthlike(<=0.01)', 'f:large(>0.01)', 'cls:ReferenceEllipsoid',
                     'cls:WGS', 'lat:equator', 'lat:pole', 'lat:mid', 'lat:near-pole/equator', 'h=0', 'h>0', 'continuity:f=0',
